@@ -38,7 +38,7 @@ SPACE_DESC = {
     "flip2": "one flipped bit at two of the eight bit positions (chosen by the seed) of every byte of every corpus and feature file; the thorough tier flips all eight",
     "alloc": "the k-th allocation call returns NULL, for every k up to the number of allocations of the fault-free run, for every corpus file",
     "read": "the k-th read of the input fails with EIO, for every k of the fault-free run, for every corpus file",
-    "stress": "every (family, size knob) pair of the stress family once, fault-free, including the largest knobs (10^5-byte tokens, 196 417 case labels in worst-case AVL order, 4097 names per scope)",
+    "stress": "every (family, size knob) pair of the stress family once, fault-free, including the largest knobs (10^5-byte tokens, 196 417 case labels in worst-case AVL order, 4097 names per scope) and the operator/type matrix (59 forms x 30 x 30 operand type categories; one sixth of it per quick run, all of it in the thorough tier)",
     "write": "the k-th write to the output fails (ENOSPC), for every k of the fault-free run under 4 buffer modes, transient and persistent, accepting 0 / 1 / all-but-one bytes, for every corpus file",
 }
 
@@ -135,13 +135,24 @@ def run(prop, tier):
         # job list: (exe, args, count) split into NCPU worker processes each
         jobs = []
 
-        def add(kind, ex, extra, total, nw, sd):
+        def add(kind, ex, extra, total, nw, sd, first=0, step=1):
+            """indices first, first+step, ... below total, dealt round-robin to nw workers"""
+            n = max(0, (total - first + step - 1) // step)
             for w in range(nw):
-                per = (total - w + nw - 1) // nw
+                per = (n - w + nw - 1) // nw
                 if per <= 0:
                     continue
-                out = os.path.join(work, "%s-%d.json" % (kind, w))
-                jobs.append((kind, out, [ex, "run", "--prop", prop, "--seed", str(sd), "--start", str(w), "--stride", str(nw), "--count", str(per), "--out", out] + extra + common))
+                out = os.path.join(work, "%s-%d-%d.json" % (kind, first, w))
+                jobs.append((kind, out, [ex, "run", "--prop", prop, "--seed", str(sd), "--start", str(first + w * step), "--stride", str(nw * step), "--count", str(per), "--out", out] + extra + common))
+
+        def add_space(prefix, ex, sp):
+            if sp == "stress" and tier == "quick":
+                # the hand-sized families completely, the 53 100-entry operator/type matrix one sixth per run (offset by seed)
+                head = min(300, spaces[sp])
+                add(prefix + sp, ex, ["--space", sp], head, NCPU, seed)
+                add(prefix + sp, ex, ["--space", sp], spaces[sp], NCPU, seed, first=head + seed % 6, step=6)
+            else:
+                add(prefix + sp, ex, ["--space", sp], spaces[sp], NCPU, seed)
         nsan = max(2, NCPU // 4)
         nplain = max(1, NCPU - nsan)
         det = min(b["det"], b["search"])
@@ -152,9 +163,9 @@ def run(prop, tier):
         jobs_bak = jobs
         jobs = jobs2
         for sp in b.get("spaces", []):
-            add("space-" + sp, exe, ["--space", sp], spaces[sp], NCPU, seed)
+            add_space("space-", exe, sp)
         for sp in (b.get("san_spaces", []) if exe_san else []):
-            add("sanspace-" + sp, exe_san, ["--space", sp], spaces[sp], NCPU, seed)
+            add_space("sanspace-", exe_san, sp)
         # determinism gate: the first `det` search indices again at another worker count
         gate = []
         for w in range(3):
